@@ -53,17 +53,13 @@ func rowKey(vals []uint64) string {
 func judgeC02(r *h.Result, sc *scenario, res *scenResult) {
 	// a malformed request (non-rectangular arrays, wrong payload type) is outside the property's premise
 	// (C02.parser_rect): from the first one on, blocks of this run are only compared with the model
-	firstBad := 1 << 30
+	firstBadStep := 1 << 30
 	for _, id := range sortedKeys(res.reqs) {
-		if res.reqs[id].nrows(sc.Kind) < 0 && id < firstBad {
-			firstBad = id
+		if res.reqs[id].nrows(sc.Kind) < 0 && res.reqs[id].step < firstBadStep {
+			firstBadStep = res.reqs[id].step
 		}
 	}
-	maxSeen := 0
 	for i, ev := range res.events {
-		if ev.Kind == "resolved" && ev.ID > maxSeen {
-			maxSeen = ev.ID
-		}
 		if ev.Kind != "insert" {
 			continue
 		}
@@ -73,13 +69,7 @@ func judgeC02(r *h.Result, sc *scenario, res *scenResult) {
 		for j := i + 1; j < len(res.events) && res.events[j].Kind == "resolved" && res.events[j].Step == ev.Step; j++ {
 			ids = append(ids, res.events[j].ID)
 		}
-		tainted := false
-		for id := range res.reqs {
-			if id >= firstBad && (len(ids) == 0 || id <= ids[len(ids)-1]) {
-				tainted = true
-			}
-		}
-		if firstBad < 1<<30 && tainted {
+		if ev.Step >= firstBadStep {
 			r.Count("svc:block-after-malformed-request")
 			continue
 		}
@@ -287,7 +277,7 @@ func c02(r *h.Result, rng *h.Rng, tier string, replay string) error {
 	}
 	nScen, maxOps, connFail, nProm := 300, 40, 12, 60
 	if tier == "thorough" || tier == "search" {
-		nScen, maxOps, connFail, nProm = 5000, 200, 120, 1500
+		nScen, maxOps, connFail, nProm = 2400, 120, 100, 1500
 	}
 	r.Rule = "svc: as C01 (own seed): op sequences over the six tables with requests of 0–50 rows (thorough: also 10⁴), 12 % of the sequences may contain non-rectangular or wrongly typed requests (compared with the model only); non-trivial = at least one request and one Do; distinct by implementation event log. prom: 1–4 series with lengths drawn around the flush limit {0,1,2,10,499..501,999..1001,1999..2001,random ≤3000}; non-trivial = a flush happens inside a series"
 	r.Stream("svc: the six real insert services driven step by step vs Batcher.Multi.run; every decoded block (per-column values) is compared and judged")
